@@ -1,6 +1,9 @@
 package interpreter
 
-import "fmt"
+import (
+	"fmt"
+	"sort"
+)
 
 type NativeDeleteFn struct{}
 
@@ -57,8 +60,13 @@ func (n NativeKeysFn) Call(i *Interpreter, arguments []interface{}) (interface{}
 		return nil, fmt.Errorf("keys function only works on objects")
 	}
 
-	keys := make([]interface{}, 0, len(object))
+	names := make([]string, 0, len(object))
 	for key := range object {
+		names = append(names, key)
+	}
+	sort.Strings(names)
+	keys := make([]interface{}, 0, len(object))
+	for _, key := range names {
 		keys = append(keys, key)
 	}
 
@@ -85,9 +93,14 @@ func (n NativeValuesFn) Call(i *Interpreter, arguments []interface{}) (interface
 		return nil, fmt.Errorf("values function only works on objects")
 	}
 
+	names := make([]string, 0, len(object))
+	for key := range object {
+		names = append(names, key)
+	}
+	sort.Strings(names)
 	values := make([]interface{}, 0, len(object))
-	for _, value := range object {
-		values = append(values, value)
+	for _, key := range names {
+		values = append(values, object[key])
 	}
 
 	return values, nil
